@@ -12,6 +12,9 @@ import (
 	"sort"
 	"strconv"
 	"strings"
+	"sync"
+	"sync/atomic"
+	"time"
 )
 
 var (
@@ -21,6 +24,7 @@ var (
 	Seed      = flag.Uint64("seed", 1, "seed")
 	Corpus    = flag.String("corpus", "", "corpus directory to replay first (optional)")
 	Replay    = flag.String("replay", "", "replay a single history file (events only are used)")
+	Hang      = flag.Int("hang", 90, "exit with status 4 when no history step completes for this many (real) seconds: the code under test hangs or livelocks; 0 disables")
 )
 
 // W writes histories.
@@ -31,6 +35,8 @@ type W struct {
 	n     int
 	model string
 	curID string
+	mu    sync.Mutex
+	prog  atomic.Int64
 }
 
 // Open creates the output file.
@@ -39,11 +45,41 @@ func Open(model string) (*W, error) {
 	if err != nil {
 		return nil, err
 	}
-	return &W{f: f, w: bufio.NewWriterSize(f, 1<<20), Stats: map[string]int{}, model: model}, nil
+	w := &W{f: f, w: bufio.NewWriterSize(f, 1<<20), Stats: map[string]int{}, model: model}
+	if *Hang > 0 {
+		go w.watchdog(time.Duration(*Hang) * time.Second)
+	}
+	return w, nil
+}
+
+// watchdog runs outside every synctest bubble (Open is called from the test function itself), on real time.  When no
+// Begin/Step has completed for d, the code under test is hanging or spinning inside the current step: the histories
+// written so far (the last one is the prefix that leads to the hang) are flushed and the process exits with status 4.
+func (w *W) watchdog(d time.Duration) {
+	last, since := w.prog.Load(), time.Now()
+	for {
+		time.Sleep(time.Second)
+		if p := w.prog.Load(); p != last {
+			last, since = p, time.Now()
+			continue
+		}
+		if time.Since(since) < d {
+			continue
+		}
+		w.mu.Lock()
+		w.Stats["hang_no_progress_seconds"] = int(d / time.Second)
+		fmt.Fprintf(os.Stderr, "hist: no history step completed for %v in history %s: the code under test hangs or livelocks; exiting 4\n", d, w.curID)
+		w.w.Flush()
+		w.f.Sync()
+		os.Exit(4)
+	}
 }
 
 // Begin starts a history.
 func (w *W) Begin(id string, cfg []uint64) {
+	w.mu.Lock()
+	defer w.mu.Unlock()
+	w.prog.Add(1)
 	w.n++
 	w.curID = id
 	fmt.Fprintf(w.w, "H %s %s\n", id, w.model)
@@ -54,11 +90,14 @@ func (w *W) Begin(id string, cfg []uint64) {
 
 // Step writes one event with its observation.
 func (w *W) Step(ev, obs []uint64) {
+	w.mu.Lock()
+	defer w.mu.Unlock()
+	w.prog.Add(1)
 	fmt.Fprintf(w.w, "E %s\nO %s\n", Ints(ev), Ints(obs))
 }
 
 // Flush flushes buffered output (call before risky steps so a crash leaves the history on disk).
-func (w *W) Flush() { w.w.Flush() }
+func (w *W) Flush() { w.mu.Lock(); w.w.Flush(); w.mu.Unlock() }
 
 // Count adds to a statistics counter.
 func (w *W) Count(k string, d int) { w.Stats[k] += d }
